@@ -3,6 +3,7 @@ import MpireModel.Model.Worker
 import MpireModel.Model.Protocol
 import MpireModel.Proofs.Progress
 import MpireModel.Proofs.Protocol
+import MpireModel.Proofs.FirstFailure
 /-!
 # C04 — exceptions propagate faithfully and promptly (decision logic; pickle itself is an input, see DESIGN.md)
 -/
@@ -38,5 +39,61 @@ theorem yielded_before_raising_are_correct (n : Nat) (chunks : List (List Mpire.
     (s : Mpire.Proto.Sys) (h : Mpire.Proto.Reachable n chunks s) :
     (∀ t ∈ s.delivered, t ∈ s.log ∧ t ∈ chunks.flatten) ∧ s.delivered.Nodup :=
   ⟨fun t ht => Mpire.Proofs.delivered_were_executed n chunks s h t ht, Mpire.Proofs.delivered_at_most_once n chunks hnd s h⟩
+
+/-! ## Who reports the failure, and what the caller raises (Model/FirstFailure.lean)
+
+Any number of workers whose function raised, the timeout handler, the death handler and the calling thread itself, in every
+interleaving; several of them can get through the unlocked look-then-write and overwrite the one slot that names the failing job. -/
+open Mpire.FirstFailure in
+/-- What the caller raises was produced by a party of this call that found the flag down (or by the calling thread itself), and was
+stored for the job whose id the caller read: that party's own job, or — a failure of `worker_init` — every open job, or the error the
+death handler fails every other job with. -/
+theorem raised_is_real (kinds : List (Kind × Job)) (jobs : List Job) (s : St) (h : Reachable kinds jobs s)
+    (j : Job) (who : Nat) (hm : s.main = .raised j who) :
+    ∃ g, s.sigs[who]? = some g ∧ g.through = true ∧
+      (g.job = j ∨ (g.job = INIT ∧ j ∈ jobs) ∨ (∃ k, kinds[who]? = some (.death, k) ∧ j ∈ INIT :: EXIT :: jobs)) :=
+  Mpire.Proofs.FirstFailure.raised_is_real kinds jobs s h j who hm
+
+open Mpire.FirstFailure in
+/-- Once the flag is up, a failure for the job named by the slot is in the cache or on its way there (queued, or its producer is
+about to queue or store it) — whoever wrote the slot last. -/
+theorem flag_names_a_failure (kinds : List (Kind × Job)) (jobs : List Job) (s : St) (h : Reachable kinds jobs s)
+    (hf : s.flag = true) : pendingOrThere s s.slot :=
+  Mpire.Proofs.FirstFailure.flag_names_a_failure kinds jobs s h hf
+
+open Mpire.FirstFailure in
+/-- The same for the job id the caller has read, however long ago and whatever was written into the slot since. -/
+theorem read_names_a_failure (kinds : List (Kind × Job)) (jobs : List Job) (s : St) (h : Reachable kinds jobs s)
+    (j : Job) (hm : s.main = .read j) : pendingOrThere s j :=
+  Mpire.Proofs.FirstFailure.read_names_a_failure kinds jobs s h j hm
+
+open Mpire.FirstFailure in
+/-- "Within bounded time", part 1: with the flag up and nothing raised yet, somebody can always take a step … -/
+theorem never_stuck (kinds : List (Kind × Job)) (jobs : List Job) (s : St) (h : Reachable kinds jobs s)
+    (hf : s.flag = true) (hm : isRaised s.main = false) : ∃ t s', step s t = some s' :=
+  Mpire.Proofs.FirstFailure.never_stuck kinds jobs s h hf hm
+
+open Mpire.FirstFailure in
+/-- … part 2: every step uses up some of a finite amount of work, so no run is longer than the rank of the state it starts in … -/
+theorem run_bounded (s s' : St) (ts : List Step) (h : runSteps s ts = some s') : ts.length + rank s' ≤ rank s :=
+  Mpire.Proofs.FirstFailure.run_bounded s s' ts h
+
+open Mpire.FirstFailure in
+/-- … part 3: and a run that cannot be extended has ended with the caller raising. -/
+theorem maximal_runs_end_raised (kinds : List (Kind × Job)) (jobs : List Job) (s : St) (h : Reachable kinds jobs s)
+    (hf : s.flag = true) (ts : List Step) (s' : St) (hr : runSteps s ts = some s') (hmax : ∀ t, step s' t = none) :
+    isRaised s'.main = true :=
+  Mpire.Proofs.FirstFailure.maximal_runs_end_raised kinds jobs s h hf ts s' hr hmax
+
+open Mpire.FirstFailure in
+/-- Not vacuous: two workers get through their looks before either raises the flag, the second overwrites the slot, a task
+overruns at the same moment; the caller reads the slot and raises the failure of a worker — a maximal run. -/
+example :
+    (runSteps (init [(.worker, 3), (.worker, 3), (.timeout, 3)] [3])
+      [.sig 0, .sig 1, .sig 2, .sig 0, .sig 1, .sig 1, .sig 0, .sig 2, .sig 2, .main, .sig 1, .sig 0, .main, .handler 1, .store 0, .main, .sig 2, .handler 0, .store 1, .store 0]).map
+      (fun s => (s.flag, s.slot, s.main, s.queue, s.pend, (step s (.sig 0)).isNone, (step s (.sig 1)).isNone, (step s (.sig 2)).isNone,
+        (step s .main).isNone, (step s (.handler 0)).isNone, (step s (.store 0)).isNone))
+    = some (true, 3, MainPc.raised 3 0, [], [], true, true, true, true, true, true) := by
+  rfl
 
 end Mpire.C04
